@@ -255,6 +255,64 @@ theorem payload_verifies (L : Nat) (items : List Item) :
                     rw [← createValueDump_eq_dumpPayload]; exact C11.dump_verifies _ _
       · exact ih db e he
 
+/-! ### The end-of-file check on whole files (C11's footer theorems composed with the loader) -/
+
+/-- **end-of-file check rejects a wrong checksum** — for every well-formed file body and ANY 8 bytes in place of
+    the checksum that differ from the CRC-64 of the covered bytes (a single flipped bit, all zeros, …), the loader
+    still delivers every record and then fails with the checksum error; it never reports success. -/
+theorem file_rejects_wrong_checksum (pf : Bytes → Bool) (L : Nat) (fv : Int) (ver : Nat) (h1 : 1 ≤ ver) (h9 : ver ≤ 9)
+    (hfv : (ver : Int) ≤ fv) (items : List Item) (hok : itemsOk pf items) (tr tail : Bytes)
+    (hlen : tr.length = 8) (hne : tr ≠ le64 (Spec.Crc64.crc64 (hdr ver ++ ser items ++ [0xFF]))) :
+    Rdb.run pf true L fv (hdr ver ++ ser items ++ [0xFF] ++ tr ++ tail) =
+      (expected (dumpPayload Dump.toVersion16) L 0 items, .error .checksum) := by
+  have hall : hdr ver ++ ser items ++ [0xFF] ++ tr ++ tail
+      = hdr ver ++ (ser items ++ 0xFF :: (tr ++ tail)) := by simp
+  generalize hcov : hdr ver ++ ser items ++ [0xFF] = cov at *
+  rw [hall]
+  unfold Rdb.run
+  rw [header_ok fv ver h1 h9 hfv]
+  simp only []
+  rw [← hall]
+  have hb := expected_length_le Dump.createValueDump L items 0
+  rw [hall, runLoop_items pf L _ _ items hok {} _ [] rfl (by
+    simp only [List.length_append, List.length_cons]; omega)]
+  rw [← createValueDump_eq_dumpPayload]
+  simp only [List.reverse_nil, List.nil_append]
+  congr 1
+  rw [← hall]
+  unfold footerOf
+  rw [readN_append' 8 _ _ hlen]
+  simp only []
+  have hcv : (cov ++ tr ++ tail).take ((cov ++ tr ++ tail).length - (tr ++ tail).length) = cov := by
+    have := take_append_sub cov (tr ++ tail)
+    simpa [List.append_assoc] using this
+  rw [hcv, C11.footer_rejects_trailer cov tr hlen hne]
+  simp
+
+/-- **end-of-file check rejects altered value data** — take a well-formed file and substitute one byte so that
+    the body is still well-formed (a byte of a key name or of value data; lengths and opcodes untouched), keeping
+    the original checksum: the records of the altered body are delivered and the footer check then fails. -/
+theorem file_rejects_altered_data (pf : Bytes → Bool) (L : Nat) (fv : Int) (ver : Nat) (h1 : 1 ≤ ver) (h9 : ver ≤ 9)
+    (hfv : (ver : Int) ≤ fv) (items items' : List Item) (hok' : itemsOk pf items')
+    (p s : Bytes) (x y : UInt8) (hxy : x ≠ y)
+    (hc : hdr ver ++ ser items ++ [0xFF] = p ++ x :: s) (hc' : hdr ver ++ ser items' ++ [0xFF] = p ++ y :: s)
+    (tail : Bytes) :
+    Rdb.run pf true L fv (hdr ver ++ ser items' ++ [0xFF] ++
+        le64 (Spec.Crc64.crc64 (hdr ver ++ ser items ++ [0xFF])) ++ tail) =
+      (expected (dumpPayload Dump.toVersion16) L 0 items', .error .checksum) := by
+  apply file_rejects_wrong_checksum pf L fv ver h1 h9 hfv items' hok' _ tail (Lemmas.Bytes.le64_length _)
+  intro h
+  have := Lemmas.Bytes.le64_inj _ _ h
+  rw [hc, hc'] at this
+  exact C11.single_byte_detected 0 p s x y hxy this
+
+/-- non-vacuity: one byte of a raw string value changed (`v` → `w`) -/
+example : ∃ (p s : Bytes),
+    hdr 9 ++ ser [.key .none none none (.raw .b6 [107]) (.str 0 (.raw .b6 [118]))] ++ [0xFF] = p ++ 118 :: s ∧
+    hdr 9 ++ ser [.key .none none none (.raw .b6 [107]) (.str 0 (.raw .b6 [119]))] ++ [0xFF] = p ++ 119 :: s :=
+  ⟨hdr 9 ++ [0, 1, 107, 1], [0xFF], by decide, by decide⟩
+
+
 /-! ### Non-vacuity: a concrete well-formed file with an LZF key, int-encoded strings, a chunked hash
     (chunk limit 12), a Lua script, expiry/idle/freq, a wider-than-necessary length and a select-db -/
 
